@@ -21,8 +21,14 @@ TraceCOS == TraceLog[1].cos = 1
 E == TraceLog[l]
 IsEvent(name) == l <= Len(TraceLog) /\ E.ev = name /\ l' = l + 1
 
+\* the real idleConnTime of the connection, read by its own loop at the logged step, agrees with the
+\* modelled idle mark: 0 active, 1 a time stamp (idle / not yet idle), -1 claimed by closeIdleConns
+\* (whose own line may not be in the log yet), 9 not known
+MarkClass(m) == CASE m = "active" -> 0 [] m = "closing" -> -1 [] OTHER -> 1
+MarkOk(c) == E.m \in {-1, 9} \/ E.m = MarkClass(mark'[c])
+
 InitVals ==
-  /\ sd' = "no" /\ stop' = FALSE /\ lnOpen' = TRUE /\ serveRunning' = TRUE /\ doneClosed' = FALSE
+  /\ sd' = "no" /\ stop' = FALSE /\ lnOpen' = TRUE /\ serveRunning' = TRUE /\ done' = "open" /\ doneFlag' = FALSE
   /\ open' = 1 /\ scanned' = {} /\ victim' = NoConn
   /\ ph' = [c \in Conns |-> "none"] /\ mark' = [c \in Conns |-> "fresh"]
   /\ inmap' = [c \in Conns |-> FALSE] /\ netClosed' = [c \in Conns |-> FALSE] /\ cclosed' = [c \in Conns |-> FALSE]
@@ -41,22 +47,22 @@ TServeRet == IsEvent("srv.serve.ret") /\ serveRunning /\ serveRunning' = FALSE /
                /\ UNCHANGED <<svars, cvars>>
 TReg == IsEvent("srv.conn.reg") /\ Register(E.c)
 TFirst == IsEvent("srv.firstbyte") /\ (FirstByteFrom(E.c, "top", TRUE) \/ FirstByteFrom(E.c, "check", TRUE))
-            /\ ph'[E.c] = "read"
+            /\ ph'[E.c] = "read" /\ MarkOk(E.c)
 \* the loop found its connection claimed by closeIdleConns and gives up before starting a request
 TClaimed == IsEvent("srv.claimed") /\ ph[E.c] \in {"top", "check"} /\ ph' = [ph EXCEPT ![E.c] = "leaving"]
               /\ UNCHANGED <<svars, serveRunning, open, mark, inmap, netClosed, cclosed, wire, buf, sent, nstart, unflushed, delivered, lost>>
-THStart == IsEvent("srv.h.start") /\ HandlerStart(E.c) /\ nstart'[E.c] = E.i
-THEnd == IsEvent("srv.h.end") /\ HandlerEnd(E.c)
-TResp == IsEvent("srv.resp") /\ WriteResp(E.c)
+THStart == IsEvent("srv.h.start") /\ HandlerStart(E.c) /\ nstart'[E.c] = E.i /\ MarkOk(E.c)
+THEnd == IsEvent("srv.h.end") /\ HandlerEnd(E.c) /\ MarkOk(E.c)
+TResp == IsEvent("srv.resp") /\ WriteResp(E.c) /\ MarkOk(E.c)
 \* a successful Write on the connection: the normal flush, or the flush before leaving on stop
-TWriteOk == IsEvent("conn.write") /\ E.ok = 1 /\ (FlushEffect(E.c) \/ StopFlushEffect(E.c))
+TWriteOk == IsEvent("conn.write") /\ E.ok = 1 /\ (FlushEffect(E.c) \/ StopFlushEffect(E.c)) /\ MarkOk(E.c)
 TWriteFail == IsEvent("conn.write") /\ E.ok = 0
                 /\ \/ ph[E.c] = "written" /\ ph' = [ph EXCEPT ![E.c] = "leaving"]
                    \/ ph[E.c] = "stopping" /\ ph' = [ph EXCEPT ![E.c] = "leaving"]
                 /\ UNCHANGED <<svars, serveRunning, open, mark, inmap, netClosed, cclosed, wire, buf, sent, nstart, unflushed, delivered, lost>>
 TCCBreak == IsEvent("srv.cc.break") /\ CloseBreak(E.c)
-TIdle == IsEvent("srv.idle") /\ MarkIdleEffect(E.c)
-TStopSeen == IsEvent("srv.stop.seen") /\ StopSeen(E.c)
+TIdle == IsEvent("srv.idle") /\ MarkIdleEffect(E.c) /\ MarkOk(E.c)
+TStopSeen == IsEvent("srv.stop.seen") /\ StopSeen(E.c) /\ MarkOk(E.c)
 \* leaving the loop: after a failed read (client or Shutdown closed the connection), on stop, after a break
 TUnreg == IsEvent("srv.conn.unreg")
             /\ \/ UnregisterFrom(E.c, {"leaving", "stopping"})
@@ -65,7 +71,9 @@ TUnreg == IsEvent("srv.conn.unreg")
 TOpenDec == IsEvent("srv.open.dec") /\ OpenDec(E.c)
 TStop == IsEvent("sd.stop") /\ SetStop
 TLnClosed == IsEvent("sd.lnclosed") /\ CloseListeners
-TDone == IsEvent("sd.done") /\ CloseDone
+\* the line carries the state of the real s.done right after the close block: 1 closed, 0 open, 2 nil
+TDone == IsEvent("sd.done") /\ CloseDone /\ E.closed = (CASE done' = "closed" -> 1 [] done' = "open" -> 0 [] OTHER -> 2)
+TServeAgain == IsEvent("serve.again") /\ ServeAgain
 TScanBegin == IsEvent("sd.scan.begin") /\ ScanBegin
 TScanTest == IsEvent("sd.idle.test") /\ ScanTestResult(E.c, FALSE)
 TCloseIdle == IsEvent("sd.idle.close") /\ CloseIdleNow(E.c)
@@ -75,7 +83,7 @@ TWait == IsEvent("sd.wait") /\ ReadOpenResult(FALSE)
 
 TraceNext == \/ TReset \/ TSend \/ TCClose \/ TAccept \/ TServeRet \/ TReg \/ TFirst \/ TClaimed \/ THStart \/ THEnd
              \/ TResp \/ TWriteOk \/ TWriteFail \/ TCCBreak \/ TIdle \/ TStopSeen \/ TUnreg \/ TOpenDec
-             \/ TStop \/ TLnClosed \/ TDone \/ TScanBegin \/ TScanTest \/ TCloseIdle \/ TScanEnd \/ TReturn \/ TWait
+             \/ TStop \/ TLnClosed \/ TDone \/ TServeAgain \/ TScanBegin \/ TScanTest \/ TCloseIdle \/ TScanEnd \/ TReturn \/ TWait
 
 TraceSpec == TraceInit /\ [][TraceNext]_<<vars, l>>
 
